@@ -244,7 +244,20 @@ def _r2_r5(ctx, m):
                   "pattern = [0 if entry == sentinel else 1 for entry in ode.jac.rhs] -- marks exactly the stored entries",
                   found=show(v)[:140])
         # rows
-        rd = [x for x in rf.assigns.get("rowdata", [])]
+        # locals by role: the text written to jac_pattern.dat is "\n".join(<rows>); a row is " ".join(str(e) for e in <row data>)
+        rows_name = None
+        for f in rf.facts:
+            if f.kind == "call" and f.target == "write" and f.value and "jac_pattern.dat" in show(f.value[1]):
+                a = simp(f.value[3][0]) if f.value[3] else None
+                if a and a[0] == "join" and a[2][0] == "acc":
+                    rows_name = a[2][1]
+        rd = []
+        for f in rf.facts:
+            if f.kind == "append" and f.target == rows_name:
+                a = simp(f.value)
+                if a[0] == "join" and a[2][0] == "comp" and len(a[2][3]) == 1:
+                    rd.append((a[2][3][0][1], f.loops, f.guards, f.line, None))
+        role_names = {rows_name} | {nm for nm, lst in rf.assigns.items() for val, *_ in lst if simp(val) == v or (rd and simp(val) == simp(rd[-1][0]))}
         ok = False
         found = ""
         if rd:
@@ -261,7 +274,7 @@ def _r2_r5(ctx, m):
                   "row r of the file is pattern[r*nrow:(r+1)*nrow] for r in range(nrow), nrow = ode.jac.nrow", found=found)
     # nothing edits the pattern after it was derived from the entries
     if pat is not None:
-        muts = [f for f in rf.facts if f.target in ("rowdata", "pattern", "rowpattern") and f.kind in ("store", "augstore", "mutate", "remove")]
+        muts = [f for f in rf.facts if f.target in role_names and f.kind in ("store", "augstore", "mutate", "remove")]
         ctx.check(not muts, "R5", "pattern-unedited", (FILE, muts[0].line if muts else pat[1]),
                   "the pattern rows are written exactly as derived from the Jacobian entries" if not muts else
                   f"the pattern is edited after it was derived from the entries (`{muts[0].kind}` on `{muts[0].target}` at line {muts[0].line}): jac_pattern.dat marks entries the generated "
